@@ -12,6 +12,7 @@ import (
 	"os"
 	"sort"
 	"strings"
+	"time"
 )
 
 // Line is one case as seen by the Lean driver.
@@ -99,6 +100,7 @@ func main() {
 	tier := flag.String("tier", "quick", "quick|thorough")
 	corpus := flag.String("corpus", "", "corpus file (JSON lines with op,input) to replay instead of generating")
 	list := flag.Bool("list", false, "list properties with runners")
+	caseTimeout := flag.Duration("case-timeout", 90*time.Second, "a case running longer than this is a hang: the process exits with status 4")
 	flag.Parse()
 	if *list {
 		var ks []string
@@ -142,7 +144,7 @@ func main() {
 				fmt.Fprintf(out, "{\"begin\":%d}\n", idx)
 				out.Flush()
 				ctx := &Ctx{Prop: *prop, Seed: -1, Idx: idx, Tier: *tier, R: rand.New(rand.NewSource(int64(idx))), out: out}
-				cr(ctx, e.Op, e.Input)
+				runWithWatchdog(func() { cr(ctx, e.Op, e.Input) }, *caseTimeout)
 			}
 			idx++
 		}
@@ -158,6 +160,22 @@ func main() {
 		out.Flush()
 		ctx := &Ctx{Prop: *prop, Seed: *seed, Idx: i, Tier: *tier,
 			R: rand.New(rand.NewSource(*seed*1000003 + int64(i))), out: out}
-		r(ctx)
+		runWithWatchdog(func() { r(ctx) }, *caseTimeout)
+	}
+}
+
+// runWithWatchdog runs one case; if it does not finish in time the process exits with status 4 so
+// that the supervisor records a hang for the in-flight case and restarts after it.
+func runWithWatchdog(f func(), d time.Duration) {
+	done := make(chan struct{})
+	go func() {
+		defer close(done)
+		f()
+	}()
+	select {
+	case <-done:
+	case <-time.After(d):
+		fmt.Fprintf(os.Stderr, "fatal error: verif watchdog: case exceeded %v (hang)\n", d)
+		os.Exit(4)
 	}
 }
